@@ -14,7 +14,7 @@ From ACH Require MergeOpts MergeOptsFacts.
 
 (* forgetting the options commutes with Flatten: the batches of the result are those of
    the option-free model, so C12_conservation, C12_figures, C12_sorted, C12_maximal,
-   C12_idempotent and C12_valid_partial hold for files carrying any options *)
+   C12_idempotent and C12_wellformed hold for files carrying any options *)
 Theorem C12_opts_erasure : forall f,
   map bo_batch (fo_batches (flatten_o_stable f)) = flatten_stable (map bo_batch (fo_batches f)).
 Proof. exact flatten_o_erasure. Qed.
